@@ -160,7 +160,10 @@ def validate_trace(path, prop, cfg="Trace.cfg", module="ArimaaTrace.tla", timeou
 # traces
 
 def record(bindir, driver, seed, events, out, timeout=600, binary="record", extra=None):
-    cmd = [os.path.join(bindir, binary), driver, str(seed), str(events), out] + (extra or [])
+    if binary == "twins":
+        cmd = [os.path.join(bindir, binary), str(seed), str(events), out]
+    else:
+        cmd = [os.path.join(bindir, binary), driver, str(seed), str(events), out] + (extra or [])
     rc, o = sh(cmd, timeout, env={"VERIF_REPO": REPO})
     if rc != 0:
         raise ToolError("recorder %s %s failed rc=%s:\n%s" % (binary, driver, rc, o[-2000:]))
